@@ -228,7 +228,7 @@ func family(t string) string {
 	return "pipe"
 }
 
-func (c *checker) runHistory(i int) {
+func (c *checker) runHistory(i int, pool *wm.Pool) {
 	r := c.r
 	transport := []string{"pipe", "http", "pipe", "http", "unix", "http", "pipe", "http-net"}[i%8]
 	if only := os.Getenv("C43_ONLY"); only != "" { // development aid
@@ -239,11 +239,11 @@ func (c *checker) runHistory(i int) {
 	if i < 2 {
 		r.Sample(map[string]any{"history": h, "otel": oc})
 	}
-	c.runGiven(h, oc)
+	c.runGiven(h, oc, pool)
 }
 
 // runGiven runs one history under one OTel configuration and judges it.
-func (c *checker) runGiven(h wm.History, oc otelCfg) {
+func (c *checker) runGiven(h wm.History, oc otelCfg, pool *wm.Pool) {
 	r := c.r
 	transport := h.Transport
 	fam := family(transport)
@@ -270,7 +270,7 @@ func (c *checker) runGiven(h wm.History, oc otelCfg) {
 			EnableTracing: oc.Tracing, EnableMetrics: oc.Metrics, RecordExceptions: oc.RecordExc, ServiceName: "wm-svc"})
 		return vgirpc.VerifDispatchHook(s)
 	}
-	env, err := wm.NewEnv(transport, h.Cfg, install)
+	env, err := pool.NewEnv(transport, h.Cfg, install)
 	if err != nil {
 		r.Inconclusive("environment: " + err.Error())
 		return
@@ -526,7 +526,7 @@ func main() {
 		}
 		r.Require("replayed-history")
 		r.Class("replayed-history")
-		c.runGiven(doc.Witness.History, doc.Witness.Otel)
+		c.runGiven(doc.Witness.History, doc.Witness.Otel, nil)
 		return
 	}
 	r.Require("transport.pipe", "transport.unix", "transport.http", "transport.http-net",
@@ -547,11 +547,13 @@ func main() {
 		wg.Add(1)
 		go func(w int) {
 			defer wg.Done()
+			pool := wm.NewPool()
+			defer pool.Close()
 			for i := w; i < n; i += workers {
 				if r.Violated() && i > 60*workers {
 					return
 				}
-				c.runHistory(i)
+				c.runHistory(i, pool)
 			}
 		}(w)
 	}
